@@ -11,7 +11,7 @@ import (
 )
 
 func init() {
-	register(&Rule{ID: "FLAG-allowIn", Props: []string{"C03"}, Min: 20,
+	register(&Rule{ID: "FLAG-allowIn", Props: []string{"C03", "C04"}, Min: 20,
 		Doc: "P (ES5 §11.14 Expression vs ExpressionNoIn, §12.6.3): an interprocedural typestate analysis of the parser's allowIn flag (scope.allowIn). Per function the flag's state at every call site is computed symbolically (Entry / true / false, through saved locals, deferred restores and openScope); a fixpoint over the parser's call graph (bound method values included) gives every function the set of flag values it can be entered with. Obligations: (1) every function that writes the flag leaves it as it found it; (2) the initialiser of a for statement is parsed with the flag false; (3) every other place the grammar says Expression / AssignmentExpression (arguments, bracket members, parenthesised, array and object literals, statement-level expressions, the for test/update/collection) is entered only with the flag true. The NoIn variants are inherited only inside the expression ladder itself (comma, assignment, conditional, variable declaration)",
 		Run: ruleFlagAllowIn})
 }
@@ -341,6 +341,12 @@ func ruleFlagAllowIn(c *Ctx, r *R) {
 				r.ok("inherit:"+key, site, why)
 				continue
 			}
+			if ok {
+				// the grammar makes this operand NoIn whenever the enclosing production is: it must see the flag it was
+				// entered with, not a forced value
+				r.bad("inherit:"+key, site, fmt.Sprintf("%s: %s - but this call runs with allowIn=%s whatever the caller was entered with: inside a for initialiser the operand accepts `in` (`for (var i = a ? 1 : 2 in obj; ;) {}` parses) or, when forced false, rejects it everywhere", ssaFuncName(fn), why, stString(sym)))
+				continue
+			}
 			if sym == stF {
 				// set false locally: the for initialiser
 				forInitSites++
@@ -515,6 +521,25 @@ func ruleRestrictASI(c *Ctx, r *R) {
 			fromOther := other == s.anchor.Block() || reaches(other, s.anchor.Block(), cut)
 			if !fromNewline && fromOther {
 				okSite = true
+				// for the postfix operators the operand has been parsed already when the test is made: with a line
+				// terminator before `++` the operand ends the statement and must not be judged as an assignment target
+				// (`a = b()\n++c` is two statements), so every error report of the function sits on the no-newline side
+				if s.what == "postfix ++/--" && len(other.Preds) == 1 {
+					for _, b2 := range s.fn.Blocks {
+						for _, i2 := range b2.Instrs {
+							call, ok := i2.(*ssa.Call)
+							if !ok || call.Call.StaticCallee() == nil {
+								continue
+							}
+							switch call.Call.StaticCallee().Name() {
+							case "error", "errorUnexpected", "errorUnexpectedToken":
+								if !other.Dominates(b2) {
+									r.bad(key+":early-error", c.Pos(instrPos(call)), fmt.Sprintf("%s reports an error about the operand of a postfix operator before (or regardless of) the test of the newline flag: `a = b()\n++c` - a call expression, then a prefix increment on the next line (7.9.1: no LineTerminator between operand and postfix operator) - is rejected as an invalid assignment target", ssaFuncName(s.fn)))
+								}
+							}
+						}
+					}
+				}
 			}
 		}
 		r.check(okSite, key, c.Pos(instrPos(s.anchor)), "the operand is taken only when no line terminator was seen", fmt.Sprintf("§7.9.1: in %s the operand of %s is taken without a test of the scanner's newline flag that excludes it after a line terminator: `%s` followed by a newline must end the statement there (for throw: be an error), so the next line is not its operand", ssaFuncName(s.fn), s.what, s.what))
